@@ -27,6 +27,53 @@ ARGS = {"ramp": ["start", "stop"], "sine": ["freq", "ampl", "off", "phase"], "ga
 SMALL = [0, 0.125, -0.125, 0.25, 0.0625, 0.375]
 
 
+COUNTING = ("OBForge", "OBPoints", "OEArrays", "OEPoints", "OEValidate", "OESR", "OEDuration", "OSForge", "OSAwg", "OSSeqx",
+            "OSPoints", "OSCheck", "OSChannels", "OSDuration")
+
+
+def counted_registers(prog):
+    """Registers whose sample counts the program itself computed AFTER their last mutation: only those are known to be
+    free of rounding ties at their current rates (a blueprint whose rate was changed and never forged again may hold
+    durations of exactly n + 1/2 samples, where binary64 and exact arithmetic round differently).  An element / blueprint
+    that was copied into a counted sequence / element and not touched since counts as well.  -> {"B","E","S"} sets."""
+    ok = {"B": set(), "E": set(), "S": set()}
+    into = {"E": set(), "B": set()}          # (container register, content register) pairs still in step
+    for op in prog:
+        k = op[0]
+        if k in COUNTING:
+            ok[k[1]].add(op[1])
+            if k[1] == "S":
+                for (q, e) in into["E"]:
+                    if q == op[1]:
+                        ok["E"].add(e)
+            for _pass in (0, 1):
+                for (e, r) in into["B"]:
+                    if e in ok["E"]:
+                        ok["B"].add(r)
+            continue
+        if k.startswith("O") or k.startswith("H"):
+            continue
+        kind = k[0]
+        if kind == "T":
+            ok["S"].discard(op[-1])
+            into["E"] = {p for p in into["E"] if p[0] != op[-1]}
+            continue
+        target = op[-1] if k in ("BCopy", "BFromJson", "BAdd", "ECopy", "EFromJson", "SCopy", "SFromJson", "SAdd") else op[1]
+        ok[kind].discard(target)
+        if kind == "E":
+            into["E"] = {p for p in into["E"] if p[1] != target}
+            into["B"] = {p for p in into["B"] if p[0] != target}
+        elif kind == "B":
+            into["B"] = {p for p in into["B"] if p[1] != target}
+        elif kind == "S":
+            into["E"] = {p for p in into["E"] if p[0] != target} if k in ("SNew", "SCopy", "SFromJson", "SAdd") else into["E"]
+        if k == "SAddElement":
+            into["E"].add((op[1], op[3]))
+        elif k == "EAddBp":
+            into["B"].add((op[1], op[3]))
+    return ok
+
+
 class Shape:
     """What a program has built: registers by kind, the names / functions seen per blueprint, channels, positions."""
 
@@ -47,6 +94,16 @@ class Shape:
                 b["fns"].insert(at, a[2])
                 b["names"].insert(at, (a[5] if a[5] else a[2]).rstrip("0123456789"))
                 b.setdefault("durs", []).insert(at, a[4])
+            elif k in ("BSetMarker", "BSetSegMarker"):
+                self.B.setdefault(a[0], {"names": [], "fns": []})["marked"] = True
+            elif k == "BChangeDur":
+                b = self.B.get(a[0])
+                if b and isinstance(a[2], (int, float)) and not isinstance(a[2], bool) and len(b.get("durs", [])) == len(b["names"]):
+                    un = unique_names(b["names"])
+                    base = a[1].rstrip("0123456789")
+                    for i, n in enumerate(un):
+                        if n == a[1] or (a[3] and b["names"][i] == base):
+                            b["durs"][i] = a[2]
             elif k == "BRemove":
                 b = self.B.get(a[0])
                 if b and a[1] in unique_names(b["names"]):
@@ -69,9 +126,12 @@ class Shape:
                 self.E[a[0]] = {"chans": {}}
             elif k == "EAddBp":
                 import copy as _copy
-                self.E.setdefault(a[0], {"chans": {}})["chans"][chkey(a[1])] = ("bp", a[1], _copy.deepcopy(self.B.get(a[2])))
+                snap = _copy.deepcopy(self.B.get(a[2])) or {"names": [], "fns": []}
+                snap["reg"] = a[2]
+                self.E.setdefault(a[0], {"chans": {}})["chans"][chkey(a[1])] = ("bp", a[1], snap)
             elif k == "EAddArray":
-                self.E.setdefault(a[0], {"chans": {}})["chans"][chkey(a[1])] = ("arr", a[1], {"names": [], "fns": [], "sr": a[3] if isinstance(a[3], (int, float)) else None})
+                self.E.setdefault(a[0], {"chans": {}})["chans"][chkey(a[1])] = ("arr", a[1], {"names": [], "fns": [], "sr": a[3] if isinstance(a[3], (int, float)) else None,
+                                                                                   "n": sum(int(x[1]) for x in a[2])})
                 if isinstance(a[3], (int, float)) and a[3] > 0:
                     self.srs.append(a[3])
             elif k in ("ECopy", "EFromJson"):
@@ -108,6 +168,8 @@ class Shape:
         d = getattr(self, kind)
         r = max(list(d) + [-1]) + 1
         d[r] = {"names": [], "fns": []} if kind == "B" else ({"chans": {}} if kind == "E" else {"pos": {}})
+        if hasattr(self, "ok"):
+            self.ok[kind].add(r)          # built by the follow-up itself, from tie-safe values
         return r
 
     def bp_of(self, s, pos, c):
@@ -181,6 +243,15 @@ def off_ties(d):
     return True
 
 
+def durs_off_ties(durs, SR):
+    for d in durs:
+        if isinstance(d, (int, float)) and not isinstance(d, bool):
+            x = Fraction(d) * Fraction(SR)
+            if abs((x - (x.numerator // x.denominator)) - Fraction(1, 2)) < Fraction(1, 5) or x < Fraction(9, 5):
+                return False
+    return True
+
+
 def dur_value(rng, SR):
     for _ in range(30):
         n = rng.choice([2, 3, 5, 8, 13, 21])
@@ -225,11 +296,11 @@ def partial_everywhere(rng, sh, SR, in_sequence):
     arg = "stop" if first == "ramp" else "freq"
     val = 0.25 if first == "ramp" else 2 / d
     if not in_sequence:
-        ops += [("OEArrays", e, False), ("ECopy", e, cp), ("EChangeArg", e, 1, "p", arg, val, True)]
+        ops += [("OEArrays", e, False), ("OEDescr", e), ("ECopy", e, cp), ("EChangeArg", e, 1, "p", arg, val, True)]
         return ops, [("OEArrays", e, False), ("OEDescr", e), ("OEEq", e, cp), ("OEEq", cp, e)]
     q, qc = sh.fresh("S"), sh.fresh("S")
     ops += [("SNew", q), ("SSetSR", q, SR), ("SAddElement", q, 1, e), ("SSetAmp", q, 1, 2), ("SSetOff", q, 1, 0),
-            ("OSForge", q, True, True, False), ("SCopy", q, qc), ("SElemChangeArg", q, 1, 1, "p", arg, val, True)]
+            ("OSForge", q, True, True, False), ("OSDescr", q), ("SCopy", q, qc), ("SElemChangeArg", q, 1, 1, "p", arg, val, True)]
     return ops, [("OSForge", q, True, True, False), ("OSDescr", q), ("OSEq", q, qc), ("OSAwg", q, ("slice", None, None, None))]
 
 
@@ -258,14 +329,15 @@ ARGS_INDEX = {"start": 0, "stop": 1, "x": 0, "a": 0, "b": 1, "p": 0, "q": 1}
 
 SEQ_KINDS = ["valid_handle", "handle_arg", "handle_dur", "bad_add", "bad_sub", "set_absent", "bad_filter", "sequencing", "rate",
              "amp", "delay", "partial_seq", "copy_seq", "failed_export", "failed_forge", "seq_add", "set_filter",
-             "tool_repeat", "handle_addbp", "handle_flags", "handle_bad_array", "break_all_add"]
+             "tool_repeat", "handle_addbp", "handle_flags", "handle_bad_array", "break_all_add", "reorder_element",
+             "handle_new_array", "set_name", "failing_repeat"]
 EL_KINDS = ["el_arg", "el_dur", "el_overwrite", "partial_el", "copy_el", "wrap_seq", "tool_linear", "el_bad_array",
-            "el_overwrite_sweep"]
+            "el_overwrite_sweep", "failing_sweep", "readd_after_sr"]
 BP_KINDS = ["bp_arg", "bp_dur", "bp_insert", "bp_remove", "bp_burst", "bp_move_edit"]
 ALL_KINDS = SEQ_KINDS + EL_KINDS + BP_KINDS
 
 
-def tail(rng, sh, extra_obs, first=False, force=None):
+def tail(rng, sh, extra_obs, first=False, force=None, base_obs=()):
     """A few further API calls on what the program has built (observations worth adding go to extra_obs).  `force`:
     the kind of the first call (the caller cycles through ALL_KINDS so that every run contains every kind); returns
     None when the program has nothing that kind applies to."""
@@ -282,14 +354,19 @@ def tail(rng, sh, extra_obs, first=False, force=None):
                 ops += [("SSetDelay", s, op[3], float(Fraction(rng.choice([2, 3, 8])) / Fraction(own_sr(b0, some_sr(rng, sh))))),
                         ("OSForge", s, True, True, False), rng.choice([("OSSeqx", s, False), ("OSAwg", s, ("slice", None, None, None)), ("OSDescr", s)])]
             ops.append(op)
+            # the first query after the edit is an export when the program has one (a query such as `channels` or `forge`
+            # may itself refresh what an export remembers)
+            exports = [o for o in base_obs if o[0] in ("OSSeqx", "OSAwg") and o[1] == s]
+            if exports and rng.random() < 0.8:
+                ops.append(rng.choice(exports))
             extra_obs += [("OSDescr", s), ("OSForge", s, True, True, False)]
             if rng.random() < 0.7:
                 return ops
         elif force == "valid_handle":
             return None
         force = None
-    seqs = [s for s, v in sh.S.items() if v["pos"]]
-    els = [e for e, v in sh.E.items() if v["chans"]]
+    seqs = [s for s, v in sh.S.items() if v["pos"] and s in sh.ok["S"]]
+    els = [e for e, v in sh.E.items() if v["chans"] and e in sh.ok["E"]]
     bps = [b for b, v in sh.B.items() if v["names"]]
     for _i in range(rng.randint(1, 3)):
         kinds = []
@@ -414,7 +491,8 @@ def tail(rng, sh, extra_obs, first=False, force=None):
                 Shape.apply(sh, op)
             extra_obs += [("OBDescr", r), ("OBForge", r)]
         elif k in ("handle_arg", "handle_dur", "bad_add", "bad_sub", "set_absent", "bad_filter", "sequencing", "rate", "amp", "delay", "failed_export", "failed_forge", "seq_add", "set_filter",
-                   "tool_repeat", "handle_addbp", "handle_flags", "handle_bad_array", "break_all_add"):
+                   "tool_repeat", "handle_addbp", "handle_flags", "handle_bad_array", "break_all_add", "reorder_element",
+                   "handle_new_array", "set_name", "failing_repeat"):
             s = rng.choice(seqs)
             poss = list(sh.S[s]["pos"])
             pos = rng.choice(poss)
@@ -468,6 +546,13 @@ def tail(rng, sh, extra_obs, first=False, force=None):
                 ops += [("SSetAmp", s, c, 0.0009765625)] + exps + [("SSetAmp", s, c, old),
                         ("SSetDelay", s, c, float(Fraction(rng.choice([2, 3, 8, 20])) / Fraction(SR)))]
                 extra_obs += [("OSSeqx", s, False), ("OSSeqx", s, True), ("OSForge", s, True, True, False)]
+                if rng.random() < 0.5:
+                    # ... and the sequence made inconsistent afterwards (a further channel at one position only): the gate
+                    # must notice, whatever the refused export left behind
+                    nb = sh.fresh("B")
+                    ops += [("BNew", nb), ("BInsert", nb, -1, "ramp", [0, 0.125], float(Fraction(8) / Fraction(SR)), "h"),
+                            ("BSetSR", nb, SR), ("SElemAddBp", s, pos, rng.choice([97, "hh"]), nb)]
+                    extra_obs += [("OSCheck", s), ("OSChannels", s)]
             elif k == "seq_add":
                 others = [x for x in sh.S if sh.S[x]["pos"]]
                 t = rng.choice(others)
@@ -487,6 +572,40 @@ def tail(rng, sh, extra_obs, first=False, force=None):
                 ops += [("BNew", nb), ("BInsert", nb, -1, "ramp", [0, 0.125], float(Fraction(8) / Fraction(SR2)), "h"),
                         ("BSetSR", nb, SR2), ("OSCheck", s), ("SElemAddBp", s, pos, rng.choice([c, 97, "hh"]), nb)]
                 extra_obs += [("OSCheck", s), ("OSChannels", s), ("OSForge", s, False, False, False), ("OSDescr", s)]
+            elif k == "reorder_element":
+                # the entry at a position replaced by an element with the same blueprints listed in the opposite channel
+                # order (after delays were declared and the sequence forged): nothing positional may be remembered
+                if ent[0] == "el":
+                    chs2 = [v for v in ent[1]["chans"].values()]
+                    if len(chs2) >= 2 and all(v[0] == "bp" and v[2].get("reg") is not None and
+                                               sh.B.get(v[2]["reg"], {}).get("names") == v[2]["names"] for v in chs2):
+                        e2 = sh.fresh("E")
+                        ops += [("SSetDelay", s, chs2[0][1], float(Fraction(rng.choice([2, 3, 8])) / Fraction(own_sr(chs2[0][2], SR)))),
+                                ("OSForge", s, True, True, False), ("ENew", e2)]
+                        for v in reversed(chs2):
+                            ops.append(("EAddBp", e2, v[1], v[2]["reg"]))
+                        ops.append(("SAddElement", s, pos, e2))
+                        extra_obs += [("OSForge", s, True, True, False), ("OSAwg", s, ("slice", None, None, None)), ("OSChannels", s)]
+            elif k == "handle_new_array":
+                # a raw-array channel given new samples of the same length through the handle, between two exports
+                if b is not None and b.get("n") and b["n"] <= 6000:
+                    n = b["n"]
+                    w = [(rng.choice([0.125, -0.125, 0.0625]), n // 2), (rng.choice([0.25, 0, -0.0625]), n - n // 2)]
+                    ops += [rng.choice([("OSAwg", s, ("slice", None, None, None)), ("OSSeqx", s, False), ("OSForge", s, True, True, False)]),
+                            ("SElemAddArray", s, pos, c, w, own_sr(b, SR), [("m1", [(1, 1), (0, n - 1)])] if rng.random() < 0.5 else [])]
+                    extra_obs += [("OSAwg", s, ("slice", None, None, None)), ("OSForge", s, True, True, False)]
+            elif k == "set_name":
+                ops.append(("SSetName", s, rng.choice(["myseq", "x", "seq_1"])))
+                cp = sh.fresh("S")
+                ops.append(("SCopy", s, cp))
+                extra_obs += [("OSDescr", s), ("OSDescr", cp)] + ([] if has_arrays_shape(sh) else [("OSEq", s, cp)])
+            elif k == "failing_repeat":
+                # repeatAndVarySequence whose second step is refused (a duration of zero): the input sequence must be what it was
+                nm = pick_name(rng, b)
+                q = sh.fresh("S")
+                d_ok = dur_value(rng, own_sr(b, SR))
+                ops += [("OSDescr", s), ("TRepeat", s, [pos], [c], [nm], ["duration"], [[d_ok, 0, d_ok]], q)]
+                extra_obs += [("OSDescr", s), ("OSLen", q), ("OSForge", s, True, True, False)]
             elif k == "break_all_add":
                 # every element of the sequence made invalid through its handle (one channel gets another duration), then
                 # the sequence is used as an operand of + in both orders and queried
@@ -568,6 +687,37 @@ def tail(rng, sh, extra_obs, first=False, force=None):
             q = sh.fresh("S")
             ops += [("OESR", e), ("TLinear", e, chs[0], "w", rng.choice(["start", "stop", 0]), 0, 0.25, 0.125, q)]
             extra_obs += [("OSSR", q), ("OSCheck", q), ("OSDescr", q), ("OESR", e)]
+        elif k == "failing_sweep":
+            # a sweep that is refused part-way (a duration that becomes zero at a later step): the base element must be
+            # what it was, and sweep again correctly
+            e = rng.choice(els)
+            bch = [v for v in sh.E[e]["chans"].values() if v[0] == "bp" and v[2] and v[2]["names"]]
+            if bch:
+                v = rng.choice(bch)
+                nm = rng.choice(unique_names(v[2]["names"]))
+                d_ok = dur_value(rng, own_sr(v[2], some_sr(rng, sh)))
+                q, q2 = sh.fresh("S"), sh.fresh("S")
+                ops += [("OEDescr", e), ("OEArrays", e, False)]
+                if rng.random() < 0.5:
+                    ops.append(("TVarying", e, [v[1]], [nm], ["duration"], [[d_ok, d_ok * 2, 0]], q))
+                else:
+                    ops.append(("TLinear", e, v[1], nm, "duration", d_ok * 2, 0, d_ok, q))
+                ops += [("OEDescr", e), ("OEArrays", e, False),
+                        ("TVarying", e, [v[1]], [nm], [pick_arg(rng, v[2], nm)], [[0.125, 0.25]], q2)]
+                extra_obs += [("OEDescr", e), ("OSDescr", q2), ("OSLen", q), ("OEArrays", e, False)]
+        elif k == "readd_after_sr":
+            # the blueprint a channel was filled from gets another sample rate and is added to the same channel again
+            e = rng.choice(els)
+            bch = [v for v in sh.E[e]["chans"].values() if v[0] == "bp" and v[2] and v[2].get("reg") is not None and v[2].get("sr")
+                   and sh.B.get(v[2]["reg"], {}).get("names") == v[2]["names"] and not sh.B[v[2]["reg"]].get("marked")]
+            if bch:
+                v = rng.choice(bch)
+                # a new rate at which every duration of that blueprint stays well away from a rounding tie (durations made
+                # for 100 Sa/s are full of half samples at 50 Sa/s) and above one sample
+                cands = [f for f in (2, 0.5, 4, 3) if durs_off_ties(sh.B[v[2]["reg"]].get("durs", []), v[2]["sr"] * f)]
+                if cands:
+                    ops += [("OEValidate", e), ("BSetSR", v[2]["reg"], v[2]["sr"] * rng.choice(cands[:2])), ("EAddBp", e, v[1], v[2]["reg"])]
+                    extra_obs += [("OEValidate", e), ("OESR", e), ("OEPoints", e), ("OEDescr", e)]
         elif k == "el_bad_array":
             e = rng.choice(els)
             ch = rng.choice(list(sh.E[e]["chans"].values()))
@@ -615,7 +765,7 @@ def forge_safe(prog, sh):
     """May a follow-up forge what the program built?  Only when the program itself forges something (programs that
     only describe - C05's histories - use durations of seconds at GSa/s rates) and no segment is longer than 200 000
     samples at the largest rate around."""
-    if not any(op[0] in FORGING[:5] for op in prog):
+    if not any(op[0] in COUNTING for op in prog):
         return False
     top = max(sh.srs) if sh.srs else 1
     for op in prog:
@@ -624,6 +774,10 @@ def forge_safe(prog, sh):
         if op[0] in ("BChangeDur", "EChangeDur") and isinstance(op[-2], (int, float)) and not isinstance(op[-2], bool) and op[-2] * top > 200000:
             return False
     return True
+
+
+def has_arrays_shape(sh):
+    return any(v[0] == "arr" for e in sh.E.values() for v in e["chans"].values())
 
 
 def has_arrays(prog):
@@ -650,7 +804,7 @@ def make(rng, cases, n, max_prog=90):
     if not pool:
         return out
     # the commonest stateful pattern (observe, edit through the handle, observe again) gets several slots per cycle
-    kinds = [(k, 0) for k in ALL_KINDS] + [("valid_handle", i) for i in (1, 2, 3)] + [("failed_export", 1), ("failed_forge", 1)]
+    kinds = [(k, 0) for k in ALL_KINDS] + [("valid_handle", i) for i in (1, 2, 3, 4, 5)] + [("failed_export", 1), ("failed_forge", 1)]
     rng.shuffle(kinds)
     used = {k: 0 for k in kinds}
     tries = 0
@@ -665,6 +819,7 @@ def make(rng, cases, n, max_prog=90):
             keep = sorted(rng.sample(range(len(obs)), 10))
             obs = [o for i, o in enumerate(obs) if i in keep]
         sh = Shape(prog)
+        sh.ok = counted_registers(prog)
         if sh.srs and max(sh.srs) > 64 * min(sh.srs):
             continue          # programs mixing very different rates: a few samples at one rate are millions at another
         del ALL_SRS[:]
@@ -674,9 +829,9 @@ def make(rng, cases, n, max_prog=90):
         base_regs = {"B": max(list(sh.B) + [-1]) + 1, "E": max(list(sh.E) + [-1]) + 1, "S": max(list(sh.S) + [-1]) + 1}
         added = 0
         pre_obs = []
-        if not any(v["chans"] for v in sh.E.values()) and rng.random() < 0.6:
+        if not any(v["chans"] for v in sh.E.values()) and safe and rng.random() < 0.6:
             # programs about blueprints only: an element around one of them (a blueprint that has its sample rate)
-            cand = [r for r, v in sh.B.items() if v["names"] and v.get("sr")]
+            cand = [r for r, v in sh.B.items() if v["names"] and v.get("sr") and r in sh.ok["B"]]
             if cand:
                 r = rng.choice(cand)
                 e = sh.fresh("E")
@@ -685,7 +840,7 @@ def make(rng, cases, n, max_prog=90):
                     sh.apply(op)
                 new += w
                 obs = obs + [("OEDescr", e)] + ([("OEArrays", e, False)] if safe else [])
-        if any(v["chans"] for v in sh.E.values()) and not any(v["pos"] for v in sh.S.values()) and safe and rng.random() < 0.6:
+        if any(v["chans"] and r in sh.ok["E"] for r, v in sh.E.items()) and not any(v["pos"] and r in sh.ok["S"] for r, v in sh.S.items()) and safe and rng.random() < 0.6:
             # programs about blueprints / elements only: put a sequence around one of their elements first (observed
             # once), so that the sequence-level kinds - handles, faults, exports - apply to them as well
             w = tail(rng, sh, pre_obs, force="wrap_seq")
@@ -695,8 +850,8 @@ def make(rng, cases, n, max_prog=90):
                         sh.apply(op)
                 new += w
                 obs = obs + [o for o in pre_obs if o not in obs]
-        has_s = any(v["pos"] for v in sh.S.values())
-        has_e = any(v["chans"] for v in sh.E.values())
+        has_s = any(v["pos"] and r in sh.ok["S"] for r, v in sh.S.items())
+        has_e = any(v["chans"] and r in sh.ok["E"] for r, v in sh.E.items())
         has_b = any(v["names"] for v in sh.B.values())
         app = [k for k in kinds if (k[0] in SEQ_KINDS and has_s) or (k[0] in EL_KINDS and has_e) or (k[0] in BP_KINDS and has_b)]
         if not app:
@@ -712,7 +867,7 @@ def make(rng, cases, n, max_prog=90):
             new.insert(first, ("HHoldHandles",))
         for _round in range(rng.randint(1, 2)):
             extra_obs = []
-            t = tail(rng, sh, extra_obs, first=_round == 0, force=want if _round == 0 else None)
+            t = tail(rng, sh, extra_obs, first=_round == 0, force=want if _round == 0 else None, base_obs=obs)
             if not t:
                 break
             added += len(t)
@@ -723,7 +878,9 @@ def make(rng, cases, n, max_prog=90):
                 # nothing of this program may be forged: keep only the describing observations, also inside the tail
                 # (objects the follow-up builds itself sit in fresh registers and stay forgeable)
                 def own(o):
-                    return o[1] >= base_regs[o[0][1]]
+                    # only the two self-contained recipes build objects (in fresh registers) that owe nothing to the
+                    # program's own blueprints; a wrapper around a base blueprint is as unforgeable as the blueprint
+                    return want in ("partial_el", "partial_seq") and _round == 0 and o[1] >= base_regs[o[0][1]]
                 extra_obs = [o for o in extra_obs if o[0] not in FORGING or own(o)]
                 t = [o for o in t if o[0] not in FORGING or own(o)]
                 t = [o for o in t if not (o[0] in ("SAddElement",) and o[1] >= base_regs["S"] and o[3] < base_regs["E"])]
@@ -736,6 +893,10 @@ def make(rng, cases, n, max_prog=90):
             # every object's description last: it is what lets the driver recognise a wait target that coincides with the
             # elapsed time up to float dust (lang.wait_dust) after an edit of a duration
             descr = [("OSDescr", r) for r in sorted(sh.S)] + [("OEDescr", r) for r in sorted(sh.E)] + [("OBDescr", r) for r in sorted(sh.B)]
+            def countable(o):
+                return o[0] not in COUNTING or o[1] in sh.ok[o[0][1]]
+            t = [o for o in t if countable(o)]
+            obs = [o for o in obs if countable(o)]
             ob = list(obs)
             if rng.random() < 0.6:
                 rng.shuffle(ob)          # the order of the queries after an edit matters to anything that is invalidated by a query
